@@ -358,7 +358,15 @@ def check_e2e(case):
         if g[0] == "water":
             state = "WAT"
         elif g[0] == "na":
-            state = getattr(obj, "ffname", obj.name)  # nucleotide state names are checked via charges in C02
+            # the nucleotide's state follows from what was built: base letter, sugar type (2'-hydroxyl
+            # present or not), strand position
+            meta = s.strands[g[1]]
+            state = topo.expected_na(meta["seq"][g[2]], meta["dna"], g[2] == 0, g[2] == meta["n"] - 1)["name"]
+            ffname = getattr(obj, "ffname", obj.name)
+            if ffname != state and meta["n"] > 1:
+                res.bad("C01:e2e:wrong-state", f"{ff}: nucleotide {g[2]} of {'DNA' if meta['dna'] else 'RNA'} strand {''.join(meta['seq'])} is "
+                        f"parameterised as {ffname!r}, its state is {state!r}")  # fmt: skip
+            state = ffname
         else:
             exp = A.expected[(g[1], g[2])]
             state, _core = e2e.final_state_name(entry, exp)
